@@ -74,6 +74,13 @@ def pattern_harness(A, MAXD, S, **kw):
             sx.assume(d[s] <= 2)
         else:
             sx.assume(kw[f"d{s}"] == 1)
+    # the SAME array may stand at several argument positions with different index tuples (matmul(a, a), outer(v, v)): `same` makes
+    # argument 1 the array of argument 0 (one name, one numblocks entry, so the two must agree in rank and block counts)
+    same = A >= 2 and sx.conc(kw.get("same", 0)) == 1
+    names = [f"a{a}" for a in range(A)]
+    if same:
+        names[1] = "a0"
+        sx.assume(len(arg_inds[1]) == len(arg_inds[0]))
     numblocks = {}
     nb_concrete_one = {}
     for a in range(A):
@@ -85,6 +92,9 @@ def pattern_harness(A, MAXD, S, **kw):
                 nbs.append(1)
             else:
                 nbs.append(d[s])
+        if same and a == 1:
+            for x_, y_ in zip(nbs, numblocks["a0"]):
+                sx.assume(x_ == y_)
         numblocks[f"a{a}"] = tuple(nbs)
     # effective number of output blocks per symbol: the largest count over the arguments
     eff = {}
@@ -118,7 +128,9 @@ def pattern_harness(A, MAXD, S, **kw):
                     must_refuse = True
     argpairs = []
     for a in range(A):
-        argpairs.extend((f"a{a}", arg_inds[a]))
+        argpairs.extend((names[a], arg_inds[a]))
+    if same:
+        numblocks = {k: v for k, v in numblocks.items() if k != "a1"}
     sx.note(("pattern", arg_inds, "->", out_ind, "numblocks", numblocks, "new_axes", new_axes, "coords", coords))
     try:
         kf = make_blockwise_back_key_function_flattened(_f, "out", out_ind, *argpairs, numblocks=numblocks, new_axes=new_axes)
@@ -135,10 +147,10 @@ def pattern_harness(A, MAXD, S, **kw):
     for a in range(A):
         k = fa.args[a]
         sx.require(isinstance(k, ChunkKey), "argument-not-a-ChunkKey", f"arg {a}")
-        sx.require(isinstance(k.name, str) and k.name == f"a{a}", "wrong-array-or-argument-position", f"arg {a}: name={k.name!r}")
+        sx.require(isinstance(k.name, str) and k.name == names[a], "wrong-array-or-argument-position", f"arg {a}: name={k.name!r}")
         sx.require(isinstance(k.coords, tuple) and len(k.coords) == len(arg_inds[a]), "wrong-coordinate-arity", f"arg {a}: coords={k.coords!r}")
         for p, s in enumerate(arg_inds[a]):
-            nb = numblocks[f"a{a}"][p]
+            nb = numblocks[names[a]][p]
             if s in out_ind:
                 want = sx.ite(nb == 1, 0, coords[out_ind.index(s)]) if isinstance(nb, sx.SInt) else (0 if nb == 1 else coords[out_ind.index(s)])
             else:
@@ -160,6 +172,8 @@ def pattern_vars(A, MAXD, S):
         v.append((f"c{p}", 0, 2))
     for s in range(S):
         v.append((f"d{s}", 1, 3))
+    if A >= 2:
+        v.append(("same", 0, 1))
     return v
 
 
